@@ -181,7 +181,7 @@ __wrap_clock_gettime(clockid_t id, struct timespec *tp)
 			case 2: case 3: case 4: d = 1; break;
 			case 5: case 6: case 7: d = 2 + (r >> 8) % 1000; break;
 			case 8: d = 1000000 + (r >> 8) % 50000000; break;   /* ms range */
-			default: d = 3600ULL * 1000000000ULL; break;       /* one hour */
+			default: d = (sim_cfg.clock_mode == 3) ? 1000000000ULL : 3600ULL * 1000000000ULL; break; /* one hour (1 s in mode 3) */
 		}
 	}
 	simclock += d;
